@@ -50,6 +50,7 @@ CASE_PRELUDE = None     # see run_scenario
 CASE_COMPANION = None   # see Companion
 CASE_NOISE = None       # calls with unsendable arguments that the application makes (and catches) during the case
 CASE_WSOPTS = None      # WebSocket() constructor arguments of the case being run that its scenarios do not set themselves
+CASE_POSITIONAL = False # the case being run passes its connect() options POSITIONALLY, in the documented order
 CASE_COPTS = None       # connect() options of the case being run that its scenarios do not set themselves
 ACTIVE_COMPANION = None  # the interleaved companion of the execution in progress
 ON_BLOCKED = None        # set by the runner: shortens the real-time watchdog for one execution
@@ -1236,6 +1237,28 @@ TERMINAL_ACTIONS = ("break", "raise", "gen_close", "with_exit", "with_exit_long_
 LONG_EXCEPTION_TEXT = "handler failed: \u00e9\u20ac {} %s {0!r} " * 12
 
 
+# WebSocket.connect() as documented (docs/guide + docstring): parameter order and defaults
+CONNECT_SIGNATURE = (("session_class", None), ("poll", 5.0), ("ping_rate", 30.0), ("ping_timeout", None), ("auto_pong", True),
+                     ("close_timeout", 30.0))
+
+
+def positional_connect_args(copts):
+    """The options of a connect() call as an application passes them POSITIONALLY: everything up to the last option it
+    sets, in the documented order, unset ones at their documented defaults."""
+    from lomond.session import WebsocketSession
+    unknown = set(copts) - set(n for n, _ in CONNECT_SIGNATURE)
+    if unknown:
+        raise HarnessBug("connect option(s) %s not in the documented signature" % sorted(unknown))
+    last = max(i for i, (n, _) in enumerate(CONNECT_SIGNATURE) if n in copts)
+    args = []
+    for n, default in CONNECT_SIGNATURE[:last + 1]:
+        if n == "session_class":
+            args.append(copts.get(n, WebsocketSession))
+        else:
+            args.append(copts.get(n, default))
+    return args
+
+
 def make_ws(scenario):
     from lomond.websocket import WebSocket
     kw = dict(CASE_WSOPTS or {})
@@ -1582,7 +1605,10 @@ def _drive_inner(ws, scenario, sim, tr, on_event, release=None, companion=None):
     counts = {}
     msg_ord = -1
     use_with = any(a[0] in ("with_exit", "with_exit_long_text") for r in rules for a in r["do"])
-    gen = ws.connect(**copts)
+    if scenario.get("connect_positional", CASE_POSITIONAL) and copts:
+        gen = ws.connect(*positional_connect_args(copts))
+    else:
+        gen = ws.connect(**copts)
     if release is not None and release[0] == "after_connect":
         release[1]()
         release = None
